@@ -7,6 +7,7 @@ import (
 	"sort"
 	"strings"
 	"sync"
+	"time"
 
 	"verif/lib"
 
@@ -121,6 +122,12 @@ func childMain(args []string) {
 }
 
 func childEnvCalls(outFile string) {
+	// clean-up only (no verdict): if the library blocks, the worker that started this process is ended by its watchdog
+	// after 180 s; this process must not stay behind
+	go func() {
+		time.Sleep(10 * time.Minute)
+		os.Exit(3)
+	}()
 	var lines []string
 	note := func(name string, o lib.Outcome) {
 		switch {
